@@ -60,7 +60,7 @@ func TestVerifC09Snapshot(t *testing.T) {
 			rt.Fatal(err)
 		}
 		defer os.RemoveAll(dir)
-		c := vC09DrawCase(rt, 3)
+		c := vC09DrawCase(rt, 3, false)
 		if rapid.IntRange(0, 4).Draw(rt, "noFiles") == 0 {
 			c.files, c.order = nil, nil
 		}
